@@ -498,7 +498,7 @@ def decide(b):
     CTX.trace.append((b, v))
     CTX.known[b.uid] = v
     if CTX.prune is not None and CTX.prune(b, v):
-        raise Pruned(f"path not explored after deciding {b!r} = {v}"[:160])
+        raise Pruned(f"path not explored after decision #{len(CTX.trace)} ({b.op}) = {v}")
     return v
 
 
